@@ -3,7 +3,7 @@ CONSTANTS
   Mutant = "nodecadv"
   MaxWire = 1
   Terms = {1, 2}
-  Indexes = {0, 1, 2, 3}
+  Indexes = {0, 1, 2}
   MaxEnts = 2
   Sizes = {1, 2}
   Commits = {0, 1}
